@@ -10,7 +10,7 @@
 (* admits, the repeated prune changes nothing, nothing crashed and every   *)
 (* commit that still has its table could be re-read in full.               *)
 (*                                                                         *)
-(* Lines:  reset | repo {n, par, tab, blk, refs, objs} | prune {objs,      *)
+(* Lines:  reset | repo {n, par, tab, blk, kv, refs, objs} | prune {objs,  *)
 (* crashed, unus}.  A ref is <<kind, commit, state>>; state 1 = exists,    *)
 (* 0 = deleted again, 2 = ref of an in-progress transaction older than the *)
 (* transaction TTL (gc discards that transaction first, prune does not),   *)
@@ -39,9 +39,10 @@ RepoOf(e) == [n     |-> e.n,
               par   |-> [x \in 1..e.n |-> Range(e.par[x])],
               tab   |-> [x \in 1..e.n |-> e.tab[x]],
               blk   |-> [u \in 1..Len(e.blk) |-> Range(e.blk[u])],
+              bix   |-> [u \in 1..Len(e.blk) |-> {y + 100 * e.kv[u] : y \in Range(e.blk[u])}],
               roots |-> RootsOf(e)]
 
-NoRepo == [n |-> 0, par |-> <<>>, tab |-> <<>>, blk |-> <<>>, roots |-> {}]
+NoRepo == [n |-> 0, par |-> <<>>, tab |-> <<>>, blk |-> <<>>, bix |-> <<>>, roots |-> {}]
 
 Unused == /\ UNCHANGED <<s0, s1, pc, live, keepB, keepBI, crashed>>
 
